@@ -75,9 +75,25 @@ class TwinWorld(object):
         self.ncalls = base.call_index + twin.call_index + 2
         self.log = [bdig, twin.digest()]
         tol = 2e-4
+        start = 0
+        if enc["kind"] == "translate":
+            # before the first full XY move both tools sit at the (untranslated) home position - and they stay there
+            # if that move is itself excluded.  The two runs are comparable from the first full XY move that both
+            # filters forward: from then on the printers' positions differ by the vector.
+            start = None
+            for i in sorted(brec):
+                op = schedule[i] if i < len(schedule) else {}
+                full = (op.get("op") == "move" and op.get("x") is not None and op.get("y") is not None) \
+                    or op.get("op") == "arc"
+                if i >= enc["from"] and full and brec[i].get("fwd") and (trec.get(i) or {}).get("fwd"):
+                    start = i
+                    break
+            if start is None:
+                self.stats["c08_translate_never_synced"] += 1
+                return self.viol
         for i in sorted(brec):
-            if enc["kind"] == "translate" and i < enc["from"]:
-                continue    # before the first full XY move both tools sit at the (untranslated) home position
+            if i < start:
+                continue
             b, t = brec[i], trec.get(i)
             if b.get("margin", 1.0) < 1e-3:
                 # precondition of C08 not met from here on (a destination within 1e-3 mm of a border: rounding
